@@ -7,4 +7,5 @@ mkdir -p build evidence replays
 bin/build.sh main
 bin/build.sh map
 bin/build.sh race
+bin/build.sh real
 echo "setup ok"
